@@ -127,19 +127,53 @@ def genImp (id : String) (thorough : Bool) : Gen Case := do
 
 /-! ### corpus: witnesses of the repaired defects, always first -/
 
-def mkFirst (i : Nat) (src : String) (v : V) : Case :=
-  { id := s!"C11-first-{i}", cls := "good", kind := "first", stratum := "first-use/std-scope",
-    model := v.canon, spec := v.canon, payload := [s!"C11-first-{i}", "8", src] }
+/-! ### fresh: concurrent first use in a fresh process (harness op `fresh`) -/
 
-/-- six programs whose concurrent first evaluation in a fresh process initialises the standard-library scope;
-six, so that each of the race tier's harness processes starts with one -/
+def hexDigit (n : Nat) : Char := "0123456789abcdef".toList.getD n '0'
+def hexOf (bytes : List Nat) : String := String.ofList (bytes.flatMap (fun b => [hexDigit (b / 16), hexDigit (b % 16)]))
+
+def mkFresh (id stratum : String) (n : Nat) (chunks : List (List Nat)) (warm src : String) (v : V) : Case :=
+  { id := id, cls := "good", kind := "fresh", stratum := stratum, model := v.canon, spec := v.canon,
+    payload := [id, toString n, "|".intercalate (chunks.map hexOf), warm, src] }
+
+def codes (s : String) : List Nat := s.toList.map Char.toNat
+
+/-- what `//{./d.json}` denotes for the file the harness's child writes: `{"a": [1, 2], "b": 3}` -/
+def dJson : V :=
+  V.mkSet [V.mkTup [("@", V.mkStr (codes "a")), ("@value", V.mkTup [("a", V.mkArr [.num 1, .num 2])])],
+           V.mkTup [("@", V.mkStr (codes "b")), ("@value", .num 3)]]
+
+/-- first uses of the standard-library scope, the import machinery and the implicit decoder; six of them first, so
+that each of the race tier's harness processes starts with one -/
 def firstUse : List Case :=
-  [ mkFirst 0 "//seq.concat([[1], [2]])" (V.mkArr [.num 1, .num 2]),
-    mkFirst 1 "//str.upper('ab')" (V.mkStr [65, 66]),
-    mkFirst 2 "//math.pi > 3" (V.bool true),
-    mkFirst 3 "//tuple({'a': 1})" (V.mkTup [("a", .num 1)]),
-    mkFirst 4 "//rel.union({{1}, {2}})" (V.mkSet [.num 1, .num 2]),
-    mkFirst 5 "//seq.join(',', ['a', 'b'])" (V.mkStr [97, 44, 98]) ]
+  let f (i : Nat) (src : String) (v : V) := mkFresh s!"C11-first-{i}" "fresh/std-scope" 8 [] "" src v
+  [ f 0 "//seq.concat([[1], [2]])" (V.mkArr [.num 1, .num 2]),
+    f 1 "//str.upper('ab')" (V.mkStr [65, 66]),
+    f 2 "//math.pi > 3" (V.bool true),
+    f 3 "//tuple({'a': 1})" (V.mkTup [("a", .num 1)]),
+    f 4 "//rel.union({{1}, {2}})" (V.mkSet [.num 1, .num 2]),
+    f 5 "//seq.join(',', ['a', 'b'])" (V.mkStr [97, 44, 98]),
+    mkFresh "C11-first-6" "fresh/import-json" 8 [] "" "//{./d.json}" dJson,
+    mkFresh "C11-first-7" "fresh/import-arrai" 8 [] "" "//{./m}" (V.mkTup [("x", .num 1), ("y", V.mkSet [.num 2, .num 3])]) ]
+
+/-- stdin's read-once: N goroutines evaluate `//os.stdin` for the first time while the input arrives in several
+Reads; each must see the WHOLE input (Theorems.stdin_serial; the narrowed-lock variant fails here:
+Theorems.index_serial_false_if_lock_released) -/
+def mkStdin (id : String) (n : Nat) (chunks : List (List Nat)) (countOnly : Bool) : Case :=
+  let whole := chunks.flatten
+  if countOnly then
+    mkFresh id "fresh/stdin-read-once" n chunks "//seq.concat([[1]])" "//os.stdin count" (.num (Int.ofNat whole.length))
+  else
+    mkFresh id "fresh/stdin-read-once" n chunks "//seq.concat([[1]])" "//os.stdin" (V.mkBytes whole)
+
+def genStdin (id : String) : Gen Case := do
+  let n ← pick [2, 4, 8]
+  let k ← rand 6
+  let chunks ← genList (k + 1) (do
+    let len ← rand 8
+    genList (len + 1) (do let c ← rand 95; pure (c + 32)))
+  let countOnly ← chance 1 3
+  pure (mkStdin id n chunks countOnly)
 
 def corpus : Gen (List Case) := do
   let c0 := mkConc "C11-corpus-0" "corpus/where-err-genericset" 8 3 (.ints 400)
@@ -154,7 +188,9 @@ def corpus : Gen (List Case) := do
   let x0 : Case := { id := "C11-corpus-6", cls := "KF-import-cross-wait", kind := "impx",
                      stratum := "corpus/import-cross-wait", model := "hang:2", spec := "returned",
                      payload := ["C11-corpus-6"] }
-  pure (firstUse ++ [c0, c1, c2, c3, i0, i1, x0])
+  let s0 := mkStdin "C11-corpus-7" 8 [codes "hello ", codes "world ", codes "of ", codes "arr.ai"] false
+  let s1 := mkStdin "C11-corpus-8" 4 [codes "a", codes "b", codes "c", codes "d", codes "e", codes "f"] true
+  pure (firstUse ++ [c0, c1, c2, c3, i0, i1, x0, s0, s1])
 
 def gen (seed n : Nat) (thorough : Bool) : List Case := Id.run do
   let (cs, _) := corpus.run (seedOf seed 1100000)
@@ -162,8 +198,8 @@ def gen (seed n : Nat) (thorough : Bool) : List Case := Id.run do
   for i in [0:n] do
     let id := s!"C11-{i}"
     let g : Gen Case := do
-      let k ← rand 10
-      if k < 7 then genConc id thorough else genImp id thorough
+      let k ← rand 40
+      if k < 27 then genConc id thorough else if k < 39 then genImp id thorough else genStdin id
     let (c, _) := g.run (seedOf seed (1100001 + i))
     out := c :: out
   pure out.reverse
